@@ -17,6 +17,7 @@ HOOK_COMMITS = ["c93212c7541212aed27f84b998ced74192f17e2f"]
 
 _UNDER_CONSTRUCTION = "no check registered yet: the check for this property is still being built (see DESIGN.md section 8 for the order); not a statement that the technique cannot apply"
 NOT_APPLICABLE = {("C%02d" % i): _UNDER_CONSTRUCTION for i in range(1, 21)}
+HOOK_COMMITS_NOTE = "fix: commits are not hooks and are not listed here"
 
 PROPS = {
     "C01": {
@@ -34,5 +35,21 @@ PROPS = {
                 "prefix wrapper directly over a full-message wrapper, foreign wrapper whose prefix must be extracted}. Distinct = hash of the case JSON.",
         "assumptions": ["the receiving process links the same types (same test binary)", "gogo proto.Marshal/Unmarshal are faithful"],
         "parts": [rapid("roundtrip", "TestProp", 24000, 640000)],
+    },
+    "C11": {
+        "pkg": "c11",
+        "level": "exploration",
+        "level_text": "Generated search with shrinking: every public accessor (hints, details, links, telemetry keys, domain, tags, flags, "
+                      "HTTP/gRPC codes, OS predicates, per-layer safe details, reportable stack frames, one-line source) is snapshotted before "
+                      "the first hop and compared after each of 1-3 (thorough 1-5) hops on tens of thousands of generated trees over hostile "
+                      "and regular strings; a second generator places an errno in the tree and lets the first hop land on a foreign platform.",
+        "level_note": "Same-binary receiver stands for a knowing process; the foreign platform is simulated by rewriting ErrnoPayload.arch on the wire; "
+                      "barrier and secondary-error layers are exempt from the safe-detail comparison as the property states.",
+        "technique": "property-based testing (rapid): round-trip oracle, full accessor snapshot before/after k hops, foreign-platform wire mutation",
+        "rule": "rapid-generated error trees (hostile and regular alphabets) x 1-3 hops (thorough 1-5); oracle: accessor snapshot equal after every hop. "
+                "Part foreign-platform: an errno sentinel is placed at a random leaf and the first hop rewrites ErrnoPayload.arch. "
+                "Non-trivial = at least 3 different annotation kinds and at least one stack-capturing kind in the tree. Distinct = hash of the case JSON.",
+        "assumptions": ["the receiving process links the same types (same test binary)", "tag values are strings (the API under test captures only their string form)"],
+        "parts": [rapid("annotations", "TestProp", 16000, 320000), rapid("foreign-platform", "TestForeign", 8000, 160000)],
     },
 }
